@@ -93,6 +93,7 @@ def gen_enumerated(rng, outcomes, v2):
     return {'v2': v2, 'n_runs': n_runs, 'prior': None, 'start': stamp(rng), 'load_gap': 0, 'load_script': ['ok'],
             'branch': rng.choice([None, 'verif/feature-x', 'v1.2.3']),
             'ui': rng.choice([None, {'verbose': False, 'debug': False}, {'verbose': True, 'debug': True}]),
+            'clean': rng.random() < 0.15,
             'steps': steps, 'close_script': point_script(rng, outcomes[-1])}
 
 
@@ -160,6 +161,7 @@ def gen_random(rng, rich=False, max_points=5):
             'branch': rng.choice([None, 'verif/feature-x', 'release-2']),
             'ui': rng.choice([None, {'verbose': False, 'debug': False}, {'verbose': True, 'debug': False},
                               {'verbose': True, 'debug': True}]),
+            'clean': rng.random() < 0.2,
             'load_gap': rng.choice([0, 0, 29, 30, 100]), 'load_script': gen_script(rng),
             'steps': steps, 'close_script': gen_script(rng),
             'close_during': [g.dp(rich=rich)] if rng.random() < 0.1 else [],
@@ -240,7 +242,7 @@ def execute(ck, sc, idx, server=None, refused_port=None):
                     w.point['attempts'].append(rec)
                     return real_urlopen(req, *a, **kw)
                 R.urlopen = urlopen
-            s = D.Session(wd, n_runs, data_file, url, branch=sc.get('branch'), real_ui=sc.get('ui'))
+            s = D.Session(wd, n_runs, data_file, url, branch=sc.get('branch'), real_ui=sc.get('ui'), clean=bool(sc.get('clean')))
             t0 = int(w.clock)
             timeline = []   # what the oracle sees: ('dp', d) | ('point', record)
             crash = None
@@ -250,7 +252,7 @@ def execute(ck, sc, idx, server=None, refused_port=None):
                 w.begin_point('load', sc['load_script'])
                 s.load()
                 w.end_point()
-                for d in (sc.get('prior') or {}).get('dps', []):
+                for d in ([] if sc.get('clean') else (sc.get('prior') or {}).get('dps', [])):
                     events.append(dp_event(d))
                     timeline.append(('dp', d))
                 events.append({'k': 'send', 'now': now, 'script': mk(sc['load_script'])})
@@ -307,7 +309,7 @@ def execute(ck, sc, idx, server=None, refused_port=None):
     finally:
         redirect.close()
         os.chdir(old_cwd)
-    start_expected = sc['prior']['start'] if sc.get('prior') and sc['prior']['dps'] else sc['start']
+    start_expected = sc['prior']['start'] if (sc.get('prior') and sc['prior']['dps'] and not sc.get('clean')) else sc['start']
     op = {'op': 'c17.session', 'v2': sc['v2'], 't0': t0, 'start': start_expected, 'env': env_expected,
           'source': src_expected, 'events': events}
     if os.environ.get('C17_MODEL_VARIANT'):   # development aid: compare against the model of an earlier tree
@@ -418,13 +420,13 @@ def oracle(ck, sc, book, inp):
                  part='configured source overrides', fields=','.join(diff), api='v2' if sc['v2'] else 'v1')
             n += 1
         env, src = D.last_block_meta(book['data_file'])
-        if src is not None and D.block_count(book['data_file']) == (2 if (sc.get('prior') and sc['prior']['dps']) else 1) \
+        if src is not None and D.block_count(book['data_file']) == (2 if (sc.get('prior') and sc['prior']['dps'] and not sc.get('clean')) else 1) \
                 and src != want_src:
             fail('payload_carries_env_source', {'data_file_source_line': src, 'configured': want_src},
                  part='# Source: line', api='v2' if sc['v2'] else 'v1')
             n += 1
         blocks = D.block_count(book['data_file'])
-        wrote_block = blocks == (2 if (sc.get('prior') and sc['prior']['dps']) else 1)
+        wrote_block = blocks == (2 if (sc.get('prior') and sc['prior']['dps'] and not sc.get('clean')) else 1)
         if env is not None and wrote_block and (dec['env'] != env or dec['source'] != src):
             fail('payload_carries_env_source', {'payload_env': dec['env'], 'file_env': env,
                                                 'payload_source': dec['source'], 'file_source': src})
@@ -506,6 +508,8 @@ def check_batch(ck, scenarios, server=None, refused_port=None, tag=''):
             ck.count('reloaded-data')
         if sc.get('ui'):
             ck.count('real rebench.ui.UI in the transmission path')
+        if sc.get('clean'):
+            ck.count('session with -c (data file cleared)' + (' over an earlier session' if sc.get('prior') else ''))
         for st in sc['steps']:
             if (st.get('statuses') or {}).get('body'):
                 ck.count('error response with a body: %s' % st['statuses']['body'])
